@@ -105,6 +105,7 @@ CONFIGS = (
     dict(sessions=0, fail=0x1C4),
     dict(sessions=0, fail=0x500),
     dict(sessions=2, fail=0x98E),
+    dict(sessions=0, session_tag=True),
 )
 
 
